@@ -577,3 +577,46 @@ V("neutral-server-token-helper", N, "C17", None,
     if not (conn := sessions.get(token)):""", """    token = auth[17:-1]
     conn = sessions.get(token)
     if conn is None:"""))
+
+# ---------------------------------------------------------------- C10.d / C11.d operand wiring
+V("c10d-precision-scale-swapped", A, "C10", "C10.d",
+  ("transforms", "to=exp.DataType(this=exp.DataType.Type.DECIMAL, expressions=[precision, scale], nested=False, prefix=False),\n    )\n\n\ndef to_decimal",
+   "to=exp.DataType(this=exp.DataType.Type.DECIMAL, expressions=[scale, precision], nested=False, prefix=False),\n    )\n\n\ndef to_decimal"))
+V("c10d-default-precision-18", A, "C10", "C10.d",
+  ("transforms", 'precision = expressions[1] if len(expressions) > 1 else exp.Literal(this="38", is_string=False)',
+   'precision = expressions[1] if len(expressions) > 1 else exp.Literal(this="18", is_string=False)'))
+V("c10d-try-uses-cast", A, "C10", "C10.d", ("transforms", "        return _to_decimal(expression, exp.TryCast)", "        return _to_decimal(expression, exp.Cast)"))
+V("c10d-tonumber-scale-dropped", A, "C10", "C10.d",
+  ("transforms", """            if arg_precision:
+                _scale = arg_precision
+    else:""", """            if arg_precision:
+                _scale = None
+    else:"""))
+V("c10d-dateadd-week-not-date", A, "C10", "C10.d", ('transforms', 'unit.upper() not in {"DAY", "WEEK", "MONTH", "YEAR"}', 'unit.upper() not in {"DAY", "MONTH", "YEAR"}'))
+V("c10d-datediff-operands-swapped", A, "C10", "C10.d",
+  ("transforms", """    new_datediff.set("this", op1)
+    new_datediff.set("expression", op2)""", """    new_datediff.set("this", op2)
+    new_datediff.set("expression", op1)"""))
+V("c10d-sha2-any-length", A, "C10", "C10.d",
+  ("transforms", 'if isinstance(expression, exp.SHA2) and expression.args.get("length", exp.Literal.number(256)).this == "256":', "if isinstance(expression, exp.SHA2):"))
+V("c10d-regexp-replace-not-global", A, "C10", "C10.d", ("transforms", '        expression.args["modifiers"] = exp.Literal(this="g", is_string=True)\n', ""))
+V("c10d-occurrence-not-decremented", A, "C10", "C10.d", ("transforms", "occurrence = exp.Literal(this=str(occurrence - 1), is_string=False)", "occurrence = exp.Literal(this=str(occurrence), is_string=False)"))
+V("c10d-position-ignored", A, "C10", "C10.d", ("transforms", 'position = expression.args["position"] or exp.Literal(this="1", is_string=False)', 'position = exp.Literal(this="1", is_string=False)'))
+V("c10d-sample-system", A, "C10", "C10.d", ('transforms', 'expression.set("method", exp.Var(this="BERNOULLI"))', 'expression.set("method", exp.Var(this="SYSTEM"))'))
+V("c10d-clone-selects-target", A, ["C10", "C01"], None, ("transforms", '**{"from": exp.From(this=clone.this)},', '**{"from": exp.From(this=expression.this)},'))
+V("c10d-neutral-to-decimal-inline", N, "C10", None,
+  ("transforms", """    precision = expressions[1] if len(expressions) > 1 else exp.Literal(this="38", is_string=False)
+    scale = expressions[2] if len(expressions) > 2 else exp.Literal(this="0", is_string=False)
+""", """    precision = exp.Literal(this="38", is_string=False)
+    scale = exp.Literal(this="0", is_string=False)
+    if len(expressions) > 1:
+        precision = expressions[1]
+    if len(expressions) > 2:
+        scale = expressions[2]
+"""))
+V("c11d-object-construct-keeps-null", A, "C11", "C11.d", ("transforms", "            if left_is_null or right_is_null:\n                continue\n", "            if left_is_null:\n                continue\n"))
+V("c11d-array-index-as-key", A, "C11", "C11.d", ("transforms", 'expression=exp.Literal(this=f"$[{index.this}]", is_string=True)', 'expression=exp.Literal(this=f"$.{index.this}", is_string=True)'))
+V("c11d-upper-keeps-json", A, "C11", "C11.d", ('transforms', 'expression.set("this", exp.JSONExtractScalar(this=gp.this, expression=path))', 'expression.set("this", exp.JSONExtract(this=gp.this, expression=path))'))
+V("c11d-cast-keeps-json", A, "C11", "C11.d", ("transforms", "        je.replace(exp.JSONExtractScalar(this=je.this, expression=path))\n", "        je.replace(exp.JSONExtract(this=je.this, expression=path))\n"))
+V("c11d-flatten-loses-alias", A, "C11", "C11.d", ('transforms', 'alias=exp.TableAlias(this=alias.this, columns=[exp.Identifier(this="VALUE", quoted=False)]),', 'alias=exp.TableAlias(this=exp.Identifier(this="F", quoted=False), columns=[exp.Identifier(this="VALUE", quoted=False)]),'))
+V("c11d-try-parse-json-cast", A, "C11", "C11.d", ("transforms", "        return exp.TryCast(\n            this=expressions[0],\n            to=exp.DataType(this=exp.DataType.Type.JSON, nested=False),", "        return exp.Cast(\n            this=expressions[0],\n            to=exp.DataType(this=exp.DataType.Type.JSON, nested=False),"))
